@@ -12,6 +12,9 @@
 #include "harness/ref.h"
 
 #define OIDMAX 12
+#ifndef HAVE_T
+#define HAVE_T 1
+#endif
 static void ld(word* w, const octet* o, size_t no) { size_t i; for (i = 0; i < no / O_PER_W; ++i) { size_t j; w[i] = 0; for (j = 0; j < O_PER_W; ++j) w[i] |= (word)o[i * O_PER_W + j] << (8 * j); } }
 static int eqw(const word* a, const word* b, size_t n) { size_t i; int r = 1; for (i = 0; i < n; ++i) r &= a[i] == b[i]; return r; }
 static int eqo(const octet* a, const octet* b, size_t n) { size_t i; int r = 1; for (i = 0; i < n; ++i) r &= a[i] == b[i]; return r; }
@@ -286,9 +289,9 @@ static void check_sign2(err_t code, int operable, const word* q, const octet* oi
 void h_sign2(void)
 {
 	PROLOGUE;
-	V_IN_ARR(octet, privkey, NO); V_IN(int, have_t); V_IN_ARR(octet, tbuf, 8); V_IN(size_t, t_len);
+	V_IN_ARR(octet, privkey, NO); V_IN_ARR(octet, tbuf, 8); V_IN(size_t, t_len);
 	V_BUF(octet, sig, NO + NO / 2);
-	err_t code; const void* t = have_t ? (const void*)&tbuf[0] : (const void*)0;
+	err_t code; const void* t = HAVE_T ? (const void*)&tbuf[0] : (const void*)0;   /* concrete per group: a symbolic choice makes the event index symbolic */
 	V_ASSUME(t_len <= 8);
 	code = bignSign2(sig, &params, oid, oid_len, hash, privkey, t, t_len);
 	check_sign2(code, operable, q, oid, oid_len, hash, privkey, 0, t, t_len, sig, 0);
@@ -298,11 +301,89 @@ void h_sign2(void)
 void h_idsign2(void)
 {
 	PROLOGUE;
-	V_IN_ARR(octet, privkey, NO); V_IN_ARR(octet, id_hash, NO); V_IN(int, have_t); V_IN_ARR(octet, tbuf, 8); V_IN(size_t, t_len);
+	V_IN_ARR(octet, privkey, NO); V_IN_ARR(octet, id_hash, NO); V_IN_ARR(octet, tbuf, 8); V_IN(size_t, t_len);
 	V_BUF(octet, sig, NO + NO / 2);
-	err_t code; const void* t = have_t ? (const void*)&tbuf[0] : (const void*)0;
+	err_t code; const void* t = HAVE_T ? (const void*)&tbuf[0] : (const void*)0;
 	V_ASSUME(t_len <= 8);
 	code = bignIdSign2(sig, &params, oid, oid_len, id_hash, hash, privkey, t, t_len);
 	check_sign2(code, operable, q, oid, oid_len, hash, privkey, id_hash, t, t_len, sig, 1);
 	V_CANARY("flow idsign2");
+}
+
+/* ---- identity-based signatures: bignIdSign (as bignSign with the identifier hash in the transcript; e = 0 is admitted by
+   the code: only e < q is checked), bignIdExtract (verification of the signature of the identifier, then e = (s1 + H) mod q
+   and the recovered point R are exported) */
+void h_idsign(void)
+{
+	PROLOGUE;
+	V_IN_ARR(octet, privkey, NO); V_IN_ARR(octet, id_hash, NO); V_IN(int, have_rng); V_IN(size_t, rng_state);
+	V_BUF(octet, sig, NO + NO / 2);
+	word d[NW], H[NW], s0[NW], t[2 * NW + 1], u[NW]; err_t code; int fav; size_t j; word cy;
+	gen_i rng = have_rng ? rng_stub : 0;
+	code = bignIdSign(sig, &params, oid, oid_len, id_hash, hash, privkey, rng, (void*)rng_state);
+	STATE_RULES(code);
+	ld(d, privkey, NO); ld(H, hash, NO);
+	fav = operable && E.noid == 1 && E.oid_ret != SIZE_MAX && rng != 0 && E.created && E.start_ret == 1 &&
+		r_cmp(d, q, NW) < 0 && E.nrand == 1 && E.rand_ret && E.nmul == 1 && E.mul_ret;
+	V_ASSERT(code == ERR_OK ? fav : 1, "bignIdSign succeeds only with e < q, a generator and 0 < k < q");
+	V_ASSERT(code != ERR_OK ? !fav : 1, "bignIdSign succeeds whenever its inputs are admissible");
+	V_ASSERT(E.nrand == 0 || (E.rand_mod == E.order && E.rand_n == NW && E.rand_rng == rng && E.rand_state == (void*)rng_state),
+		"k is drawn modulo q with the caller's generator");
+	if (code == ERR_OK)
+	{
+		V_ASSERT(E.mul_ec == (const void*)E.ec && E.mul_a == E.base && eqw(E.mul_aval, E.base_val, 2 * NW) && E.mul_m == NW && eqw(E.mul_d, E.rand_val, NW), "V = k G");
+		V_ASSERT(E.nto == 1 && eqw(E.to_in[0], E.mul_out, NW), "the x-coordinate of V is exported");
+		V_ASSERT(E.nh == 6 && E.h_kind[0] == H_START &&
+			E.h_kind[1] == H_STEPH && E.h_ptr[1] == (const void*)oid && E.h_len[1] == oid_len &&
+			E.h_kind[2] == H_STEPH && E.h_len[2] == NO && eqo(E.h_val[2], E.to_val[0], NO) &&
+			E.h_kind[3] == H_STEPH && E.h_ptr[3] == (const void*)id_hash && E.h_len[3] == NO &&
+			E.h_kind[4] == H_STEPH && E.h_ptr[4] == (const void*)hash && E.h_len[4] == NO &&
+			E.h_kind[5] == H_G2 && E.h_ptr[5] == (const void*)sig && E.h_len[5] == NO / 2,
+			"belt-hash transcript: oid || <V> || id_hash || H, s0 written to the signature");
+		for (j = 0; j < NW; ++j) s0[j] = 0;
+		ld(s0, sig, NO / 2);
+		V_ASSERT(E.nzmul == 1 && E.zmul_n == NW / 2 && E.zmul_m == NW && eqw(E.zmul_a, s0, NW / 2) && eqw(E.zmul_b, d, NW), "s0 * e");
+		for (j = 0; j < 2 * NW + 1; ++j) t[j] = j < NW + NW / 2 ? E.zmul_out[j] : 0;
+		cy = r_add(t + NW / 2, t + NW / 2, d, NW, 0); t[NW + NW / 2] = cy;
+		V_ASSERT(E.nzmod == 1 && E.zmod_n == NW + NW / 2 + 1 && E.zmod_mod == E.order && eqw(E.zmod_a, t, NW + NW / 2 + 1), "(s0 + 2^l) e reduced modulo q");
+		redq(H, q);
+		ld(u, sig + NO / 2, NO);
+		V_ASSERT(E.nam == 2 && E.am_kind[0] == -1 && E.am_kind[1] == -1 && E.amod_mod[0] == E.order && E.amod_mod[1] == E.order &&
+			eqw(E.amod_a[0], E.rand_val, NW) && eqw(E.amod_b[0], E.zmod_out, NW) &&
+			eqw(E.amod_a[1], E.amod_out[0], NW) && eqw(E.amod_b[1], H, NW) && eqw(u, E.amod_out[1], NW),
+			"s1 = zzSubMod(zzSubMod(k, (s0 + 2^l) e mod q, q), H mod q, q)");
+	}
+	V_CANARY("flow idsign");
+}
+
+void h_idextract(void)
+{
+	PROLOGUE;                                           /* hash = hash of the identifier */
+	V_IN_ARR(octet, sig, NO + NO / 2); V_IN_ARR(octet, pubkey, 2 * NO);
+	V_BUF(octet, id_privkey, NO); V_BUF(octet, id_pubkey, 2 * NO);
+	word s1[NW], H[NW], s0[NW / 2 + 1], u[NW]; err_t code; int fav;
+	code = bignIdExtract(id_privkey, id_pubkey, &params, oid, oid_len, hash, sig, pubkey);
+	STATE_RULES(code);
+	ld(s1, sig + NO / 2, NO); ld(H, hash, NO); ld(s0, sig, NO / 2); s0[NW / 2] = 1;
+	fav = operable && E.noid == 1 && E.oid_ret != SIZE_MAX && E.created && E.start_ret == 1 &&
+		E.nfrom == 2 && E.from_ret[0] && E.from_ret[1] && r_cmp(s1, q, NW) < 0 &&
+		E.naddmul == 1 && E.am_ret && E.nh == 5 && E.h_ret;
+	V_ASSERT(code == ERR_OK ? fav : 1, "bignIdExtract succeeds only if the signature of the identifier verifies (incl. s1 < q)");
+	V_ASSERT(code != ERR_OK ? !fav : 1, "bignIdExtract succeeds whenever the signature verifies");
+	if (code == ERR_OK)
+	{
+		V_ASSERT(E.from_src[0] == pubkey && E.from_src[1] == pubkey + NO, "public key coordinates imported from pubkey, pubkey + no");
+		redq(H, q);
+		V_ASSERT(E.am_ec == (const void*)E.ec && E.am_pt[0] == E.base && eqw(E.am_ptval[0], E.base_val, 2 * NW), "first point of the sum is the base point");
+		V_ASSERT(E.nam == 1 && E.am_kind[0] == 1 && E.amod_mod[0] == E.order && eqw(E.amod_a[0], s1, NW) && eqw(E.amod_b[0], H, NW) &&
+			E.am_m[0] == NW && eqw(E.am_d[0], E.amod_out[0], NW), "first scalar is zzAddMod(s1, H mod q, q)");
+		V_ASSERT(eqw(E.am_ptval[1], E.from_val[0], NW) && eqw(E.am_ptval[1] + NW, E.from_val[1], NW), "second point of the sum is the imported public key");
+		V_ASSERT(E.am_m[1] == NW / 2 + 1 && eqw(E.am_d[1], s0, NW / 2 + 1), "second scalar is s0 + 2^l");
+		V_ASSERT(TRANSCRIPT(H_V2, sig), "belt-hash transcript: oid || <R> || H(id), compared with s0");
+		ld(u, id_privkey, NO);
+		V_ASSERT(eqw(u, E.amod_out[0], NW), "identity private key e = (s1 + H) mod q");
+		V_ASSERT(E.nto == 2 && eqw(E.to_in[0], E.am_out, NW) && eqw(E.to_in[1], E.am_out + NW, NW) &&
+			eqo(id_pubkey, E.to_val[0], NO) && eqo(id_pubkey + NO, E.to_val[1], NO), "identity public key = exported coordinates of R");
+	}
+	V_CANARY("flow idextract");
 }
